@@ -76,7 +76,7 @@ func runNative(repo, verifDir, hd string, cases []nativeCase, perCaseTimeout tim
 	}
 	sort.Strings(names)
 	var tb bytes.Buffer
-	fmt.Fprintf(&tb, "package %s\n\nimport (\n\t\"encoding/json\"\n\t\"fmt\"\n\t\"os\"\n\t\"runtime\"\n\t\"testing\"\n\t\"time\"\n)\n\n", pkgName)
+	fmt.Fprintf(&tb, "package %s\n\nimport (\n\t\"encoding/json\"\n\t\"fmt\"\n\t\"os\"\n\t\"runtime\"\n\t\"runtime/debug\"\n\t\"testing\"\n\t\"time\"\n)\n\n", pkgName)
 	fmt.Fprintf(&tb, "var verifHarnesses = map[string]func(){\n")
 	for _, n := range names {
 		fmt.Fprintf(&tb, "\t%q: %s,\n", n, n)
@@ -90,6 +90,7 @@ type verifCase struct {
 }
 
 func TestVerifReplay(t *testing.T) {
+	debug.SetMaxStack(128 << 20) // unbounded recursion is detected quickly
 	b, err := os.ReadFile(os.Getenv("GOSYM_CASES"))
 	if err != nil {
 		t.Fatal(err)
